@@ -3,7 +3,9 @@ package engines
 import (
 	"bytes"
 	"errors"
+	"filippo.io/age/plugin"
 	"fmt"
+	"io"
 	"sort"
 	"strings"
 
@@ -22,7 +24,8 @@ import (
 // LRecip is one recipient of a C11 list.
 type LRecip struct {
 	Native  *world.Key `json:"native,omitempty"`  // real recipient (x, e, r: no labels; s: random label)
-	Variant string     `json:"variant,omitempty"` // sim-owned: "plain" (Recipient only), "nil", "empty", "list"
+	Variant string     `json:"variant,omitempty"` // sim-owned: "plain" (Recipient only), "nil", "empty", "list"; "plugin": a real plugin.Recipient talking to a scripted plugin (labels sent as a labels stanza)
+	Script  string     `json:"script,omitempty"`  // plugin: "ok" | "stanza+error" | "error+stanza" | "error" | "dies" (what the plugin answers)
 	Labels  []string   `json:"labels,omitempty"`  // order as returned
 	Fail    bool       `json:"fail,omitempty"`    // injected wrap failure
 	XKey    int        `json:"xkey"`              // sim-owned recipients wrap to this X25519 fixture key
@@ -74,6 +77,77 @@ func (s *simLabeled) WrapWithLabels(fk []byte) ([]*age.Stanza, []string, error) 
 	return st, s.labels, nil
 }
 
+// simPlugin is the peer of one plugin.Recipient conversation, reached through the plugin.VerifTransport seam.
+// The client writes its whole first phase before it reads, so the answer is computed in Write and no task
+// switching is needed: Read hands out the prepared answer and then reports EOF (the plugin is gone).
+type simPlugin struct {
+	script string
+	labels []string
+	inner  age.Recipient
+	in     bytes.Buffer
+	out    bytes.Buffer
+	done   bool
+}
+
+func (sp *simPlugin) Write(p []byte) (int, error) {
+	sp.in.Write(p)
+	if sp.done || !bytes.HasSuffix(sp.in.Bytes(), []byte("-> done\n\n")) {
+		return len(p), nil
+	}
+	sp.done = true
+	text := sp.in.String()
+	i := strings.Index(text, "-> wrap-file-key\n")
+	if i < 0 {
+		return len(p), nil
+	}
+	line, _, _ := strings.Cut(text[i+len("-> wrap-file-key\n"):], "\n")
+	fk, err := ref.UnB64(line)
+	if err != nil {
+		return len(p), nil
+	}
+	stanza := func() {
+		sts, err := sp.inner.Wrap(fk)
+		if err != nil {
+			return
+		}
+		for _, st := range sts {
+			sp.out.Write(ref.MarshalStanza(&ref.Stanza{Type: "recipient-stanza", Args: append([]string{"0", st.Type}, st.Args...), Body: st.Body}))
+		}
+	}
+	failure := func() {
+		sp.out.Write(ref.MarshalStanza(&ref.Stanza{Type: "error", Args: []string{"recipient", "0"}, Body: []byte("simulated token failure")}))
+	}
+	if len(sp.labels) > 0 {
+		sp.out.Write(ref.MarshalStanza(&ref.Stanza{Type: "labels", Args: sp.labels}))
+	}
+	switch sp.script {
+	case "ok":
+		stanza()
+		sp.out.WriteString("-> done\n\n")
+	case "stanza+error":
+		stanza()
+		failure()
+		sp.out.WriteString("-> done\n\n")
+	case "error+stanza":
+		failure()
+		stanza()
+		sp.out.WriteString("-> done\n\n")
+	case "error":
+		failure()
+		sp.out.WriteString("-> done\n\n")
+	case "dies":
+		stanza() // and then the process is gone: no done
+	}
+	return len(p), nil
+}
+
+func (sp *simPlugin) Read(p []byte) (int, error) {
+	if sp.out.Len() == 0 {
+		return 0, io.EOF
+	}
+	return sp.out.Read(p)
+}
+
 type C11 struct{}
 
 func (C11) ID() string { return "C11" }
@@ -92,11 +166,11 @@ func (C11) Meta() core.Meta {
 	return core.Meta{
 		Level:       "exploration",
 		Rule:        "a case = list of 1..6 recipients (occasionally 40..70, or with recipients emitting stanzas of 3..70 KB so that several KiB of header exist before the refusal), each native (X25519, ssh-ed25519, ssh-rsa: no labels; scrypt: fresh random label) or sim-owned with an interface variant (Recipient only / RecipientWithLabels returning nil / empty / a list in some order, possibly repeating a label) and optionally an injected wrap failure; the differing or failing recipient is placed at every position. Oracle: Encrypt succeeds iff all label sets are equal and no wrap failed; on refusal the destination saw zero Write calls; on success every real recipient decrypts. Non-trivial = at least two recipients or a failure; distinct = distinct recipient-list skeletons.",
-		Assumptions: []string{"label lists may repeat a label; where the set reading and the sorted-list reading of 'same labels' disagree nothing is asserted about acceptance (only that a refusal wrote nothing)", "plugin recipients' labels are exercised in the C16 engine, not here"},
-		Real:        []string{"filippo.io/age Encrypt (label comparison, wrap loop, header marshal)", "native recipients"},
+		Assumptions: []string{"label lists may repeat a label; where the set reading and the sorted-list reading of 'same labels' disagree nothing is asserted about acceptance (only that a refusal wrote nothing)", "plugin recipients take part through the plugin.VerifTransport seam with a scripted peer whose whole answer is ready when the client starts reading (all other plugin behaviour is C16's)"},
+		Real:        []string{"filippo.io/age Encrypt (label comparison, wrap loop, header marshal)", "native recipients", "plugin.Recipient (client side of the plugin protocol)"},
 		Stub:        []string{"sim-owned recipients with chosen label lists / injected wrap failure", "destination (write-call counter)", "crypto/rand.Reader (tape)"},
 		FaultKinds:  []string{"fault.wrap_failure", "fault.csprng_read_fails_once"},
-		Probes:      []string{"probe.equal_sets_different_order", "probe.proper_subset", "probe.disjoint", "probe.empty_vs_absent", "probe.scrypt_with_other", "probe.two_scrypt", "probe.refused_labels", "probe.refused_wrap_failure", "probe.accepted", "probe.fail_at_last_position", "probe.differ_at_last_position", "probe.repeated_label_same_multiset", "probe.repeated_label_sets_differ", "probe.repeated_label_ambiguous", "probe.refused_after_more_than_4KiB_of_header", "probe.labels_with_space_or_empty"},
+		Probes:      []string{"probe.equal_sets_different_order", "probe.proper_subset", "probe.disjoint", "probe.empty_vs_absent", "probe.scrypt_with_other", "probe.two_scrypt", "probe.refused_labels", "probe.refused_wrap_failure", "probe.accepted", "probe.fail_at_last_position", "probe.differ_at_last_position", "probe.repeated_label_same_multiset", "probe.repeated_label_sets_differ", "probe.repeated_label_ambiguous", "probe.refused_after_more_than_4KiB_of_header", "probe.labels_with_space_or_empty", "probe.plugin_recipient"},
 	}
 }
 
@@ -224,6 +298,25 @@ func (C11) Generate(r *core.RNG, tier string, idx uint64) interface{} {
 		p.Recips[pos] = LRecip{Native: &world.Key{T: "s", K: 0, WF: 1}}
 		p.Recips = append(p.Recips, LRecip{Native: &world.Key{T: "s", K: 1, WF: 1}})
 	}
+	if r.Chance(1, 6) {
+		// a plugin recipient somewhere in the list: it reports labels through the protocol and a wrap failure as an error stanza
+		at := r.Intn(len(p.Recips))
+		ls := []string(nil)
+		if p.Recips[at].Variant == "list" {
+			ok := true
+			for _, l := range p.Recips[at].Labels {
+				if l == "" || strings.ContainsAny(l, " ,") {
+					ok = false
+				}
+			}
+			if ok {
+				ls = append(ls, p.Recips[at].Labels...)
+			}
+		}
+		if p.Recips[at].Native == nil && (p.Recips[at].Variant != "list" || ls != nil) && !p.Recips[at].Fail {
+			p.Recips[at] = LRecip{Variant: "plugin", Labels: ls, XKey: r.Intn(world.NX25519), Script: []string{"ok", "ok", "ok", "stanza+error", "error+stanza", "error", "dies"}[r.Intn(7)]}
+		}
+	}
 	if r.Chance(1, 8) {
 		// the entropy source fails once at some draw (file key, a recipient's ephemeral/salt/label, nonce)
 		p.RandFail = 1 + r.Intn(2*len(p.Recips)+3)
@@ -285,6 +378,7 @@ func pureSetKey(ls []string) string {
 func (e C11) Execute(plan interface{}, c *core.Ctx) *core.Verdict {
 	p := plan.(*C11Plan)
 	var recips []age.Recipient
+	var plugins []*simPlugin // in list order: Encrypt wraps in list order, each Wrap opens one connection
 	calls := make([]int, len(p.Recips))
 	// model: label set per recipient ("*" marks a fresh random label no one else can share)
 	expectOK := true
@@ -301,6 +395,25 @@ func (e C11) Execute(plan interface{}, c *core.Ctx) *core.Verdict {
 				set = fmt.Sprintf("*random-%d", i)
 			}
 			skeleton += lr.Native.T + ","
+		case lr.Variant == "plugin":
+			sp := &simPlugin{script: lr.Script, labels: lr.Labels, inner: world.Recipient(world.Key{T: "x", K: lr.XKey % world.NX25519})}
+			plugins = append(plugins, sp)
+			pr, perr := plugin.NewRecipient(ref.Bech32Encode("age1simplug", []byte{byte(i), 1, 2, 3}), &plugin.ClientUI{})
+			if perr != nil {
+				return core.Fail("harness", "plugin.NewRecipient: %v", perr)
+			}
+			recips = append(recips, pr)
+			if len(lr.Labels) > 0 {
+				set = setKey(lr.Labels)
+				pure = append(pure, pureSetKey(lr.Labels))
+			} else {
+				pure = append(pure, "")
+			}
+			if lr.Script != "ok" {
+				anyFail = true
+			}
+			skeleton += fmt.Sprintf("plugin:%s%v,", lr.Script, lr.Labels)
+			c.Stats.Inc("probe.plugin_recipient")
 		default:
 			inner := world.Recipient(world.Key{T: "x", K: lr.XKey % world.NX25519})
 			sp := simPlain{inner: inner, fail: lr.Fail, calls: &calls[i], big: lr.Big}
@@ -421,6 +534,18 @@ func (e C11) Execute(plan interface{}, c *core.Ctx) *core.Verdict {
 		tape.FailAt = p.RandFail - 1
 	}
 	restore := tape.Install()
+	if len(plugins) > 0 {
+		next := 0
+		plugin.VerifTransport = func(name, protocol string) (io.Reader, io.Writer, func()) {
+			if next >= len(plugins) {
+				return nil, nil, nil
+			}
+			sp := plugins[next]
+			next++
+			return sp, sp, func() {}
+		}
+		defer func() { plugin.VerifTransport = nil }()
+	}
 	w, err := age.Encrypt(d, recips...)
 	randFired := tape.FailAt >= 0 && len(tape.Reads) > tape.FailAt
 	if randFired {
